@@ -241,13 +241,15 @@ def oracle(run, pairs):
         for t in cums:
             if t is None or t < 2:
                 continue
-            bt, _ = walk(sb, t)
+            # the until-EOF mdat headers are located with the plain reading (under a size below the header length the
+            # walk under `t` stops before listing the box); the first one is what the override applies to
             ex = c["exts"]
             hit = False
-            for b in bt:
+            for b in boxes_none:
                 if b["type"] == b"mdat" and b["eof"]:
                     ex = patch_exts(ex, b["off"], be32(t))
                     hit = True
+                    break
             if hit:
                 k = "v%d" % len(jobs)
                 jobs.append("%s %s" % (k, _line(c, c["max"], None, ex)))
@@ -296,6 +298,9 @@ def oracle(run, pairs):
         for t, o in by_cum.items():
             if tilings[t][1] != "ok" and o.startswith("ok"):
                 bad.append("cumulative %s: input not tiled by complete boxes (%s) yet accepted" % (t, tilings[t][1]))
+        for t, o in by_cum.items():
+            if t is not None and t < 8 and reached_eof_mdat and o.startswith("ok"):
+                bad.append("cumulative size %d is below the 8-byte header length, an until-EOF mdat is reached, yet accepted: %s" % (t, o[:40]))
         for t, k in plan["patched"].items():
             a, b_ = by_cum.get(t), res.get(k, "missing")
             if a is not None and a != b_:
